@@ -28,7 +28,6 @@ macro_rules! ident_ascii {
         }
     };
 }
-ident_ascii!(ident_ascii_6, 6, 9);
 ident_ascii!(ident_ascii_8, 8, 11);
 ident_ascii!(ident_ascii_12, 12, 15);
 
